@@ -6,7 +6,7 @@
 """
 import os, shutil, tempfile, glob
 import numpy as np
-from pmv import common, gen, observe
+from pmv import common, gen, observe, corpus as pymcorpus
 from pmv.oracles import basic_reader
 
 ID   = 'C18'
@@ -30,11 +30,21 @@ MAX_DISCARD = 0.4
 def plan (tier, seed):
     n = 260 if tier == 'quick' else 5000
     corpus = sorted (glob.glob (os.path.join (common.REPO, 'test', '*.mini')))
-    return [dict (kind = 'corpus', file = os.path.basename (f)) for f in corpus] + [dict (kind = 'model', i = i, seed = seed) for i in range (n)]
+    return [dict (kind = 'corpus', file = os.path.basename (f)) for f in corpus] + [dict (kind = 'model', i = i, seed = seed) for i in range (n)] \
+         + [dict (c, kind = 'model') for c in pymcorpus.plan_cases (seed, tier, 1, 3)]
 # end def plan
 
 def make (c):
     rng = np.random.default_rng ([c ['seed'], 18, c ['i']])
+    if 'corpus' in c:
+        # the repository's hand-made option files written as BASIC input
+        spec = pymcorpus.make (c, 18)
+        rng  = pymcorpus.rng_of (c, 18)
+        kinds = set (l ['k'] for l in spec ['loads'])
+        spec ['lclass']  = 'lap' if kinds & set (('rlc', 'trap', 'lap')) else ('z' if kinds else 'none')
+        spec ['version'] = str (rng.choice (['9', '12', '13']))
+        spec ['fields']  = str (rng.choice (['none', 'far', 'near', 'abs']))
+        return spec
     env = str (rng.choice (['free', 'free', 'ideal', 'real1', 'real2', 'real3', 'radials']))
     if env == 'free':
         spec = gen.fam_free (rng, equal_junction = bool (rng.random () < 0.6), shift = bool (rng.random () < 0.3))
